@@ -278,7 +278,7 @@ def r04_4(ctx) -> None:
             fl |= cfg.reachable(s0)
         wt = [norm(n.ast) for n in tr if n.kind == "stmt" and n not in fl]
         wf = [norm(n.ast) for n in fl if n.kind == "stmt" and n not in tr]
-        okc = any(".protected.update(" in x for x in wt) and not any(".protected" in x for x in wf) and any("self.header" in x for x in wf)
+        okc = any(".protected.update(" in x or ".protected[" in x.split("=")[0] for x in wt) and not any(".protected" in x for x in wf) and any(f"{ah.self_name}.header" in x for x in wf)
     ctx.check(okc, "R04.4", ah, ah.node, ah.short, "add_header does not write to the protected header for compact and to the per-recipient header otherwise",
               "compact -> parent.protected; JSON -> recipient.header", construct="add_header placement")
 
